@@ -33,7 +33,7 @@ MAY_CREATE = {
 UNLABELLED_OK = {   # function -> (how many unlabelled sites were confirmed there, reason)
     "mos_core::parser::parse": (1, "entry file missing: there is no source construct to point at"),
     "mos_core::codegen::CodegenContext::finalize": (1, "segment not assigned to a bank: project-level configuration error"),
-    "mos_core::codegen::codegen::{closure#1}": (1, "undefined-symbol report: labelled on the `Some(span)` path; `None` only for synthetic segments.* symbols"),
+    "mos_core::codegen::codegen": (1, "`code generation did not settle after N passes`: concerns the whole program, not one construct"),
     "mos_core::io::binary_writer::BinaryWriter::merge_segments": (3, "bank layout errors (size, fill, unknown bank) concern the whole bank"),
     "mos_core::errors::map_io_error": (1, "I/O error text, no source construct"),
     "mos_core::errors::map_generic_error": (1, "generic error text, no source construct"),
@@ -48,7 +48,7 @@ DISCARD_OK = {   # (function, kind) -> (confirmed count, reason)
     ("mos_core::parser::parse", "is_err"): (1, "checked and returned two lines below (`file.err().unwrap()`)"),
     ("mos_core::parser::parse", "err"): (1, "the error is returned"),
     ("mos_core::parser::parse", "ok"): (1, "taken only after is_err() was false"),
-    ("mos::lsp::symbols::DocSymEmitter::<'a>::emit_document_symbol", "iflet-ok"): (1, "document symbols: a value that does not evaluate has no detail text"),
+    ("mos::lsp::symbols::DocSymEmitter::<'a>::emit_document_symbol", "ok"): (1, "document symbols (LSP outline): a segment name that does not evaluate has no children to list"),
     ("mos_core::codegen::CodegenContext::with_scope", "stmt"): (2, "the discarded `-`/`+` insertion results are reported under C07 (R7.5), where the behaviour breaks"),
 }
 
@@ -299,6 +299,15 @@ def r42(ctx, fx):
             k = "%s|error#%d" % (owner.path, ordn)
             ctx.inst(rid, k, sample={"fn": owner.path, "line": ln, "chain": names} if n <= 2 else None)
             if labelled:
+                continue
+            # `let mut d = Diagnostic::error()…;  if let Some(span) = … { d = d.with_labels(…) }` : labelled on the path that has a span
+            bound = None
+            for st in lib.hwalk(f.hir["body"]):
+                if st.get("k") == "let" and st["pat"].get("k") == "bind" and st.get("init") is not None and lib.strip(st["init"]) is node:
+                    bound = st["pat"]["name"]
+            if bound is not None and any(a.get("k") == "assign" and lib.hpath(a["l"]) == bound and
+                                         any(m.get("k") == "mcall" and m.get("name") == "with_labels" and lib.hpath(m["recv"]) == bound for m in lib.hwalk(a["r"]))
+                                         for a in lib.hwalk(f.hir["body"])):
                 continue
             unl[owner.path] = unl.get(owner.path, 0) + 1
             if owner.path in UNLABELLED_OK and unl[owner.path] <= UNLABELLED_OK[owner.path][0]:
